@@ -48,6 +48,10 @@ type Profile struct {
 	// PStopFalse: percent of plugin steps (with a cancel signal) given a stop condition that is a literal
 	// false spelling: a condition that never fires.
 	PStopFalse int
+	// ItemsFromStep: percent of loops (with an earlier plugin step) that run over that step's `its`
+	// output; OptionalItems: percent of those whose items expression is tagged optional.
+	ItemsFromStep int
+	OptionalItems int
 	// ClosedOutput: add a step that waits for a slow step and an output fed by its closed.result
 	// (produced when the caller cancels while it waits).
 	ClosedOutput bool
@@ -471,7 +475,19 @@ func GenProgram(t *rapid.T, prof *Profile, doc Doc) *Program {
 			name := fmt.Sprintf("sub%d.yaml", i)
 			p.Subs[name] = g.subProgram(name, 1)
 			s = &Step{ID: id, Kind: "foreach", Sub: name}
-			if items, ok := doc["items"]; ok && g.pct(50, "items_from_input") {
+			var itemSrc *Step
+			for _, pr := range g.prior {
+				if pr.Kind == "plugin" && !pr.Simple {
+					itemSrc = pr
+				}
+			}
+			if itemSrc != nil && g.pct(prof.ItemsFromStep, "items_from_step") {
+				// the loop runs over what an earlier step returned
+				s.Items = StepRef(itemSrc.ID, "outputs", "success", "its")
+				if g.pct(prof.OptionalItems, "items_optional") {
+					s.Items = Opt(rapid.SampledFrom([]string{"wait-optional", "soft-optional"}).Draw(t, "items_tag"), s.Items)
+				}
+			} else if items, ok := doc["items"]; ok && g.pct(50, "items_from_input") {
 				_ = items
 				s.Items = Ref("input", "items")
 			} else {
